@@ -300,3 +300,42 @@ Section Bow.
   Lemma eval_chain_blocked prev c : eval_chain bow_chain false prev c = (false, true).
   Proof. rewrite Hchain. reflexivity. Qed.
 End Bow.
+
+Lemma can_bow_never_gated m2 m1 :
+  (exists ma, bow_chain = [RPrevForbids; RForbidThisAndNext m2; RForbidThis m1; RNeedsClassChange ma]) ->
+  OF.oov_gate_mask = N.lor m1 m2 ->
+  forall cs i c, nth_error (can_bow cs) i = Some true -> nth_error cs i = Some c -> inter c OF.oov_gate_mask = false.
+Proof. intros [ma H] G. exact (can_bow_never_gated_generic m2 m1 ma H G). Qed.
+
+(* after a character of the this-and-next class that was examined, the next character is no word start, whatever it is *)
+Lemma bow_next_forbidden m2 m1 :
+  (exists ma, bow_chain = [RPrevForbids; RForbidThisAndNext m2; RForbidThis m1; RNeedsClassChange ma]) ->
+  forall prev c d t, inter c m2 = true ->
+    bow_loop bow_chain true prev (c :: d :: t) = false :: false :: bow_loop bow_chain true d t.
+Proof.
+  intros [ma H] prev c d t Hc. cbn [bow_loop].
+  rewrite (eval_chain_both m2 m1 ma H true prev c eq_refl Hc).
+  rewrite (eval_chain_blocked m2 m1 ma H c d). reflexivity.
+Qed.
+
+(* the Simple provider yields exactly one candidate when nothing was created yet, none otherwise; the candidate ends at the
+   next permissible word start or at the end of the text *)
+Lemma simple_candidate_spec o cs off other :
+  (off < List.length cs)%nat ->
+  exists ns, simple_provide o (can_bow cs) off other = ROk ns
+    /\ (other <> 0 -> ns = [])
+    /\ (other = 0 -> exists e, ns = [oov_node off e o] /\ (off < e <= List.length cs)%nat
+                       /\ (forall i, (off < i < e)%nat -> nth i (can_bow cs) true = false)
+                       /\ (e = List.length cs \/ nth e (can_bow cs) false = true)).
+Proof.
+  intros Hoff.
+  assert (Hl : forall chain cs nb prev, List.length (bow_loop chain nb prev cs) = List.length cs).
+  { intros chain. induction cs0 as [|x t IH]; intros nb prev; [reflexivity|].
+    cbn [bow_loop]. destruct (eval_chain chain nb prev x). cbn [List.length]. now rewrite IH. }
+  assert (Hlen : List.length (can_bow cs) = List.length cs) by apply Hl.
+  rewrite simple_provide_spec by lia. eexists. split; [reflexivity|]. split.
+  - intros H. replace (other =? 0) with false by lia. reflexivity.
+  - intros ->. replace (0 =? 0) with true by reflexivity.
+    pose proof (word_candidate_length_spec (can_bow cs) off ltac:(lia)) as W. cbn zeta in W. rewrite Hlen in W.
+    eexists. split; [reflexivity|]. exact W.
+Qed.
